@@ -389,3 +389,98 @@ def r5(cx):
                      "is ignored and every row is delivered" % b.sp(bad[0]), [b.sp(x) for x in sorted(set(bad))])
     else:
         cx.passed(ak, "type-mismatch-passes-rows", [b.sp(c) for c in casts])
+
+
+EXEC_S = "query::streaming::StreamingQueryExecutor::execute"
+
+
+@rule("C18", "R7", "no gap between the historical and the live phase: the receiver the spawned live-tail task reads from is the subscription the executor was constructed with (opened "
+      "before the chunk list was taken) - not a fresh subscribe / resubscribe made after the historical scan, which starts at the channel head and skips what was flushed meanwhile")
+def r7(cx):
+    ck = cx.prog.code_key(EXEC_S)
+    b = cx.body(ck)
+    if b is None:
+        cx.violation(EXEC_S, "anchor-missing", "body not found", [])
+        return
+    tasks = [(bi, si, st) for (bi, si, st) in M.aggregates(b, lambda rv: rv.get("ak") in ("closure", "coroutine")) if "receiver" in (st["rv"].get("fields") or [])
+             or any(re.search(r"StreamReceiver|broadcast::Receiver|FilteredReceiver", b.locals[o["pl"]["l"]]["ty"]) for o in st["rv"]["ops"] if o.get("k") in ("move", "copy"))]
+    if not cx.floor("live-tail tasks capturing the receiver", len(tasks), 1, ck):
+        return
+    for (bi, si, st) in tasks:
+        rv = st["rv"]
+        idx = [i for i, o in enumerate(rv["ops"]) if o.get("k") in ("move", "copy") and re.search(r"StreamReceiver|broadcast::Receiver|FilteredReceiver", b.locals[o["pl"]["l"]]["ty"])]
+        for i in idx:
+            o = M.operand_origins(b, rv["ops"][i], at=(bi, si))
+            calls = sorted({x[1][1] for x in o if x[0] == "call"})
+            if M.has_field(o, None, ".receiver") and not calls:
+                cx.passed(EXEC_S, "live-tail-reads-the-original-subscription", [b.sp(bi, si)])
+            else:
+                cx.violation(EXEC_S, "live-tail-reads-the-original-subscription", "%s: the live tail reads from a receiver produced by %s after the historical scan, not from the subscription opened "
+                             "before it: a batch flushed while the scan ran is in neither phase" % (b.sp(bi, si), calls or "something else"), [b.sp(bi, si)])
+        # inside the task every recv is on the captured receiver
+        for k2 in cx.prog.sub_bodies(rv["def"]):
+            tb = cx.body(k2)
+            if tb is None:
+                continue
+            for ri, t in tb.calls():
+                if t["callee"].endswith("broadcast::Receiver::<T>::recv") or t["callee"] == "ingester::topic_broadcast::FilteredReceiver::recv":
+                    ro = M.operand_origins(tb, t["args"][0], at=(ri, M.T))
+                    calls = sorted({x[1][1] for x in ro if x[0] == "call"})
+                    if any(x[0] == "upvar" and "receiver" in str(x[1]) for x in ro) and not calls:
+                        cx.passed(k2, "recv-on-captured-receiver", [tb.sp(ri)])
+                    else:
+                        cx.violation(k2, "recv-on-captured-receiver", "%s: the live loop receives from %s instead of the captured subscription" % (tb.sp(ri), calls or "another receiver"), [tb.sp(ri)])
+
+
+EXM = "ingester::Ingester::extract_metrics"
+
+
+@rule("C18", "R8", "topic derivation sees every row: in Ingester::extract_metrics the walk over the metric_name column runs from 0 to the column's length (or over its iterator), is left only "
+      "when that walk is exhausted, and a NULL name skips one row, not the rest - a name missing from the published topic set hides the whole batch from its subscribers")
+def r8(cx):
+    ck, b = cx.need_body(EXM)
+    if b is None:
+        return
+    ins = [bi for bi, t in b.calls() if t["callee"].endswith("HashSet::<T, S, A>::insert") or t["callee"].endswith("BTreeSet::<T, A>::insert")]
+    if not cx.floor("set inserts in extract_metrics", len(ins), 1, ck):
+        return
+    for i in ins:
+        fwd = b.reachable(i)
+        if i not in fwd:
+            cx.violation(ck, "walks-every-row", "%s: the insert of a metric name is not inside a loop" % b.sp(i), [b.sp(i)])
+            continue
+        scc = {x for x in fwd if i in b.reachable(x)} | {i}
+        nexts = [x for x in scc if b.term(x)["k"] == "call" and b.term(x)["callee"].endswith("::next")]
+        none_edges = set()
+        for n in nexts:
+            none_edges |= M.outcome_edges(b, n)[1]
+        exits = set()
+        for u in scc:
+            if b.is_cleanup(u):
+                continue
+            for v in b.succs(u):
+                if v not in scc and not b.is_cleanup(v) and b.term(v)["k"] not in ("unreachable",):
+                    exits.add((u, v))
+        early = sorted(exits - none_edges)
+        # the walk: a Range 0..len(column) or the column's own iterator
+        full = False
+        for n in nexts:
+            callee = " ".join(str(b.term(n).get(f) or "") for f in ("callee", "resolved", "self_ty", "cargs"))
+            if "ops::Range<" in callee:
+                for (bi, si, st) in M.aggregates(b, lambda rv: rv.get("adt", "").endswith("ops::Range")):
+                    ops = st["rv"]["ops"]
+                    lo = M.operand_origins(b, ops[0], at=(bi, si))
+                    hi = M.operand_origins(b, ops[1], at=(bi, si))
+                    if all(x[0] == "const" and x[1] == "0" for x in lo) and lo and any(x[0] == "call" and x[1][1].endswith("::len") for x in hi) and not any(x[0] in ("bin", "const") for x in hi) \
+                            and all(x[1][1].endswith("::len") for x in hi if x[0] == "call"):
+                        full = True
+            elif "ArrayIter" in callee or "array::iterator" in callee:
+                ro = M.operand_origins(b, b.term(n)["args"][0], at=(n, M.T))
+                if not any(x[0] == "call" and re.search(r"::(take|skip|step_by|take_while|skip_while|filter)$", x[1][1]) for x in ro):
+                    full = True
+        if nexts and full and not early:
+            cx.passed(ck, "walks-every-row", [b.sp(nexts[0]), b.sp(i)])
+        else:
+            why = ("no iterator drives the loop" if not nexts else "the walk is not 0..len(column) / the column's iterator" if not full else
+                   "the loop can be left at %s before the column is exhausted (e.g. at the first NULL name)" % b.sp(early[0][0]))
+            cx.violation(ck, "walks-every-row", "%s: %s: metric names of later rows never reach the published topic set, and subscribers filtering on them do not get the batch" % (b.sp(i), why), [b.sp(i)])
